@@ -4,6 +4,7 @@ package c10
 import (
 	"context"
 	"fmt"
+	"io"
 	"sort"
 	"strings"
 	"sync"
@@ -34,6 +35,9 @@ type recorder struct {
 	mu     sync.Mutex
 	events []event
 	wg     sync.WaitGroup // stream-reading goroutines of handlers
+	// content: a handler that reads its copy of a unit's output stream to the end also records what the
+	// copy carried (event timing "content"; string chunks only)
+	content bool
 }
 
 func (r *recorder) add(e event) {
@@ -100,7 +104,7 @@ func newHandler(id string, rec *recorder, mode readMode) callbacks.Handler {
 			return ctx
 		}
 		r.add(event{handler: id, timing: "start", stream: true, name: info.Name, comp: string(info.Component)})
-		consume(r, mode, func() (any, error) { return in.Recv() }, in.Close)
+		consume(r, mode, func() (any, error) { return in.Recv() }, in.Close, nil)
 		return ctx
 	})
 	hb.OnEndWithStreamOutputFn(func(ctx context.Context, info *callbacks.RunInfo, out *schema.StreamReader[callbacks.CallbackOutput]) context.Context {
@@ -110,28 +114,51 @@ func newHandler(id string, rec *recorder, mode readMode) callbacks.Handler {
 			return ctx
 		}
 		r.add(event{handler: id, timing: "end", stream: true, name: info.Name, comp: string(info.Component)})
-		consume(r, mode, func() (any, error) { return out.Recv() }, out.Close)
+		var onEOF func([]any)
+		if r.content && mode == readAll {
+			name, comp := info.Name, string(info.Component)
+			onEOF = func(items []any) {
+				var sb strings.Builder
+				for _, it := range items {
+					s, ok := it.(string)
+					if !ok {
+						return
+					}
+					sb.WriteString(s)
+				}
+				r.add(event{handler: id, timing: "content", stream: true, name: name, comp: comp, payload: sb.String()})
+			}
+		}
+		consume(r, mode, func() (any, error) { return out.Recv() }, out.Close, onEOF)
 		return ctx
 	})
 	return hb.Build()
 }
 
-func consume(r *recorder, mode readMode, recv func() (any, error), closeFn func()) {
+func consume(r *recorder, mode readMode, recv func() (any, error), closeFn func(), onEOF func([]any)) {
 	switch mode {
 	case closeAtOnce:
 		closeFn()
 	default:
 		r.wg.Add(1)
-		go verifHandlerReader(r, mode, recv, closeFn)
+		go verifHandlerReader(r, mode, recv, closeFn, onEOF)
 	}
 }
 
-func verifHandlerReader(r *recorder, mode readMode, recv func() (any, error), closeFn func()) {
+func verifHandlerReader(r *recorder, mode readMode, recv func() (any, error), closeFn func(), onEOF func([]any)) {
 	defer r.wg.Done()
 	defer closeFn()
+	var items []any
 	for i := 0; mode == readAll || i < 1; i++ {
-		if _, err := recv(); err != nil {
+		v, err := recv()
+		if err != nil {
+			if err == io.EOF && onEOF != nil {
+				onEOF(items)
+			}
 			return
+		}
+		if onEOF != nil {
+			items = append(items, v)
 		}
 	}
 }
@@ -154,7 +181,7 @@ func genOpts(r *mon.Rand, cfg mon.Config, mode gspec.Mode) gspec.GenOpts {
 func TestCheck(t *testing.T) {
 	cfg := mon.Load(ID)
 	rep := mon.NewReporter(cfg, "exploration",
-		"generated specs with parallel nodes, nested graphs and mixed paradigms, run in all four paradigms under 4 (quick) / 8 (thorough) handler layouts: a process-global handler, 1-5 separate WithCallbacks options (handler slices with spare capacity), handlers designated to nodes and to node paths inside nested graphs, each handler reading its stream copies fully / closing at once / reading one chunk. Oracle: recording handlers against an expected invocation table built from the reference executions: for every (handler, unit) #start = #end+#error = number of executions of that unit the handler applies to, an end never precedes its start, run info names the unit, Invoke payloads equal what the unit consumed/produced; a designated handler never fires for another unit; the result equals the reference whatever the handlers do with their stream copies; race detector. Non-trivial: a run with >=2 handlers of which >=1 designated and >=3 executed units; distinct = (spec, layout, paradigm).",
+		"generated specs with parallel nodes, nested graphs and mixed paradigms, run in all four paradigms under 4 (quick) / 8 (thorough) handler layouts: a process-global handler, 1-5 separate WithCallbacks options (handler slices with spare capacity), handlers designated to nodes and to node paths inside nested graphs, each handler reading its stream copies fully / closing at once / reading one chunk. Oracle: recording handlers against an expected invocation table built from the reference executions: for every (handler, unit) #start = #end+#error = number of executions of that unit the handler applies to, an end never precedes its start, run info names the unit, Invoke payloads equal what the unit consumed/produced; a designated handler never fires for another unit; the result equals the reference whatever the handlers do with their stream copies; race detector. Failing runs (3 per spec): a node body returns an error or panics (string / error / nil dereference) or a branch condition fails, under global, undesignated and designated handlers (the failing node, a nested graph around it, some other unit), any paradigm: after the process has settled every started unit - the failing one and the graph included - has ended exactly once (end or error), designated handlers fired for their own units only. Tools workload (a sixth of the cases, 2 graphs x 4 paradigms each): 1-2 lanes chat model -> tools node, the tools node or the lane inside a nested graph (<=2 levels), invokable-only / streamable-only / both-form tools with and without components.Checker (framework-injected vs. self-fired callbacks), tool lists given at construction or per call, 1-6 calls per message with repeated and unknown tool names (UnknownToolsHandler present or not), calls that fail, panic (first call = the node's own goroutine, others on their own) or put an error item into their stream; expected invocation table per (handler, unit) incl. every tool call as a unit of its own (run info name = called name, component Tool, payload = that call's arguments / answer, stream copies read to the end carry that call's answer), handlers designated to tools nodes / nested graphs / node paths; result unaffected by what handlers do with their copies. Non-trivial: a run with >=2 handlers of which >=1 designated and >=3 executed units; distinct = (spec, layout, paradigm).",
 		[]string{"pass-through nodes fire no node-level callbacks by design (only pairing is required for them)", "units are identified by the node name (set to the node key)"},
 		100)
 	defer func() {
@@ -163,14 +190,21 @@ func TestCheck(t *testing.T) {
 		}
 	}()
 	callbacks.AppendGlobalHandlers(newHandler("GLOBAL", nil, readAll))
+	for _, k := range []string{"failure_runs_node-body_panic", "failure_runs_node-body_error", "failure_victim_checks", "tools_failing_runs",
+		"tool_call_units_panicking", "tool_call_units_tool-call/unknown-handled", "tool_call_units_called_several_times",
+		"tool_call_units_tool-call/streamable/framework-injected", "tool_call_units_tool-call/invokable/tool-fires-itself",
+		"tools_pairs_designated", "tool_payloads_checked", "tool_stream_payloads_checked", "tools_results_checked"} {
+		rep.Require(k, 20)
+	}
 	ctx := context.Background()
 	n := int64(cfg.Pick(480, 3000))
 	rep.Cases(n, func(idx int64, rng *mon.Rand) {
 		if idx%6 == 5 {
 			componentCase(ctx, rep, rng)
 			sharedExecutorCase(ctx, rep, rng.Sub("shared"))
-			toolsCase(ctx, rep, rng.Sub("tools0"))
-			toolsCase(ctx, rep, rng.Sub("tools1"))
+			for k := 0; k < cfg.Pick(2, 4); k++ {
+				toolsCase(ctx, rep, rng.Sub(fmt.Sprintf("tools%d", k)))
+			}
 			return
 		}
 		mode := gspec.Mode(idx % 3)
